@@ -2,6 +2,7 @@ import Holpy.C15.Model
 import Holpy.C15.Proofs.Basic
 import Holpy.C15.Proofs.Trace
 import Holpy.C15.Proofs.Replay
+import Holpy.C15.Proofs.ZChaff
 import Holpy.C15.Proofs.Trail
 import Holpy.C15.Proofs.Analyze
 import Holpy.C15.Proofs.NoCrash
